@@ -31,8 +31,8 @@ def plan(tier, seed):
                 "prefixes), or one of the shipped unification files; unified() of the document and of every bundle is compared with the "
                 "model. distinct = canonical program hash; non-trivial = some identifier occurs on >= 2 records of a container",
         "assumptions": [
-            "membership groups that disagree on a formal value are not judged on the raise/no-raise clause (their multiplicity is outside "
-            "C05's claim) but are judged on 'nothing lost'",
+            "a membership group that disagrees on a formal value may be refused (ProvException) or answered (multi-member records are "
+            "outside C05's claim); when it is answered the merged record must hold the union of the values (nothing lost)",
             "two values are 'the same' for the conflict clause when Python compares them equal (same URI; same instant for aware datetimes)",
             "attribute values are sets in the library: the model merges by set union",
         ],
@@ -152,11 +152,13 @@ def judge_container(ctx, c, name, problems):
         if not conflict and not mconflict:
             problems.append({"container": name, "problem": "ProvException although no same-kind group disagrees on a formal attribute"})
         return
-    if conflict and not mconflict:
+    if conflict:
         problems.append({"container": name, "problem": "no ProvException although a same-kind group disagrees on a formal attribute"})
         return
-    if conflict or mconflict:
-        return
+    if mconflict:
+        # a membership group that disagrees on a formal value: raising is accepted (above); when unified() answers instead, the
+        # statement's other branch applies -- the merged record holds the union, nothing is lost
+        ctx.count("membership_conflict_answered: judged on 'nothing lost'")
     got = strict.ordered(u) if u.is_document() else [(None, strict.ordered_bundle(u))]
     if [b for b, _ in got] != [b for b, _ in want]:
         problems.append({"container": name, "problem": "bundle identifiers differ", "got": [b for b, _ in got], "want": [b for b, _ in want]})
